@@ -49,6 +49,7 @@ def run(chk):
     chk.extra['sweep_results_judged'] = sum(r['events'] for r in res)
     sh_stream = common.stage_histories(chk, ntraces=32 if q else 1500, steps=10 if q else 40,
                                        nvars_choices=[3, 4, 4], profile='stream', tag='st')
+    sh += common.stage_wide(chk, 'mixed')
     chk.validate('TraceBDD', 'TraceBDD.cfg', sh + sh_stream)
     chk.validate('TraceSweep', 'TraceSweep.cfg', sw)
     common.sweep_canary(chk, sw[0], 'row.quantify', 'op.quantify')
